@@ -16,3 +16,186 @@ T("fixes.remove_dead_ifs",
 T("fixes.delete_unreachable_code",
   "x = 1\nwhile 0:\n    x = 2\nelse:\n    x = 3\nprint(x)\n",
   "def f(a):\n    for i in range(3):\n        if i == a:\n            break\n        continue\n        print('never')\n    else:\n        return 'else'\n    return i\n    print('never')\nprint(f(1), f(7))\n")
+
+# ---------------------------------------------------------------------------------------------------------------
+# control flow
+
+T("fixes.breakout_common_code_in_ifs",
+  # common first statement moved in front of the test it influences (module form / function form)
+  "x = 5\nif x > 0:\n    x = 0\n    print('pos')\nelse:\n    x = 0\n    print('neg')\nprint(x)\n",
+  "def f(x):\n    if x > 0:\n        x = 0\n        r = 'pos'\n    else:\n        x = 0\n        r = 'neg'\n    return r, x\nprint(f(5), f(-5), f(0))\n",
+  # the test has a side effect that must come before the common first statement
+  "log = []\ndef t(v):\n    log.append('test')\n    return v\nfor v in (0, 1):\n    if t(v):\n        log.append('common')\n        log.append('a')\n    else:\n        log.append('common')\n        log.append('b')\nprint(log)\n",
+  # common last statement (sound direction)
+  "def f(a):\n    out = []\n    if a:\n        out.append('a')\n        out.append('end')\n    else:\n        out.append('b')\n        out.append('end')\n    return out\nprint(f(0), f(1))\n",
+  # implicit else (body returns): first statement of the body and of the code after the if are the same
+  "def f(a, acc):\n    if a:\n        acc.append(a)\n        return 'early'\n    acc.append(a)\n    return 'late'\nacc = []\nprint(f(1, acc), f(0, acc), acc)\n",
+  "def f(a):\n    if a.pop():\n        a.append(9)\n        return 1\n    a.append(9)\n    return len(a)\nprint(f([0, 1]), f([1, 0]), f([0]))\n")
+T("fixes.fix_if_return",
+  "def f(x):\n    if x:\n        return True\n    return False\nprint(f(5))\n",
+  "def f(x):\n    if x:\n        return False\n    return True\nprint(f(5), f(0), f([]), f('a'))\n",
+  "def f(x, y):\n    if x and y:\n        return False\n    return True\nprint(f(5, 0), f(0, 3), f(2, 3), f([], 1))\n",
+  "def f(x, y):\n    if x > y:\n        return True\n    return False\nprint(f(1, 2), f(2, 1), f(1, 1))\n",
+  "def f(x, y):\n    if x or y:\n        return True\n    return False\nprint(f(0, 0), f(0, 'b'), f(3, 0))\n")
+T("fixes.fix_if_assign",
+  "x = 5\nif x:\n    v = True\nelse:\n    v = False\nprint(v)\n",
+  "def f(x):\n    if x:\n        v = False\n    else:\n        v = True\n    return v\nprint(f(5), f(0), f(''), f([0]))\n",
+  "def f(x, y):\n    if x and y:\n        v = False\n    else:\n        v = True\n    return v\nprint(f(5, 0), f(0, 3), f(2, 3))\n",
+  "def f(x, y):\n    if x == y:\n        v = True\n    else:\n        v = False\n    return v\nprint(f(1, 1), f(1, 2))\n",
+  "def f(x, y):\n    if x or y:\n        v = True\n    else:\n        v = False\n    return v\nprint(f(0, []), f(0, 'b'), f(3, 0))\n")
+T("fixes.move_before_loop",
+  "x = 0\na = 0\nwhile a:\n    x = 2\n    a = 0\nprint(x)\n",
+  "x = 0\nfor i in []:\n    x = 2\nprint(x)\n",
+  "def f(n):\n    x = 'init'\n    for i in range(n):\n        x = 'set'\n        y = i\n    return x\nprint(f(0), f(1), f(3))\n",
+  # aliasing: the hoisted value is a fresh mutable object in every iteration
+  "out = []\nfor i in range(3):\n    y = []\n    z = y\n    z.append(i)\n    out.append(y)\nprint(out)\n",
+  # sound case: loop-invariant pure assignment, one or more iterations
+  "total = 0\nfor i in range(1, 4):\n    k = 10\n    total = total + k * i\nprint(total, k, i)\n",
+  # hoisted expression raises when evaluated although the loop body never runs
+  "d = {}\nfor i in d:\n    v = d['missing']\nprint('done')\n")
+T("fixes.remove_redundant_else",
+  "def f(a):\n    if a:\n        return 'a'\n    else:\n        r = 'b'\n    return r\nprint(f(0), f(1))\n",
+  "def f(a, b):\n    if a:\n        return 'a'\n    elif b:\n        return 'b'\n    else:\n        return 'c'\nprint(f(0, 0), f(0, 1), f(1, 0))\n",
+  "out = []\nfor i in range(4):\n    if i == 1:\n        continue\n    else:\n        out.append(i)\n    if i == 2:\n        break\n    else:\n        out.append(-i)\nprint(out)\n",
+  "def f(a):\n    for i in range(3):\n        if i == a:\n            raise ValueError(i)\n        else:\n            a += 0\n    return a\ntry:\n    print(f(5))\n    print(f(1))\nexcept ValueError as e:\n    print('err', e)\n")
+T("fixes.swap_if_else",
+  "def f(a):\n    if a:\n        pass\n    else:\n        return 'else'\n    return 'end'\nprint(f(0), f(1), f([]), f('x'))\n",
+  "def f(a, b):\n    if a < b:\n        pass\n    else:\n        return 'ge'\n    return 'lt'\nprint(f(1, 2), f(2, 1), f(1, 1))\n",
+  # partial order: not (a < b) is not (a >= b)
+  "def f(a, b):\n    if a < b:\n        pass\n    else:\n        return 'not-less'\n    return 'less'\nprint(f({1}, {2}), f({1}, {1, 2}), f({1, 2}, {1}))\n",
+  "def f(a, b):\n    if a <= b:\n        pass\n    else:\n        return 'not-le'\n    return 'le'\nn = float('nan')\nprint(f(n, 1.0), f(1.0, n), f(1.0, 2.0))\n",
+  "def f(a, b):\n    if a and not b:\n        pass\n    else:\n        return 'x'\n    return 'y'\nprint(f(0, 0), f(1, 0), f(1, 1), f(0, 1))\n",
+  "def f(a):\n    out = []\n    for i in range(3):\n        if i == a:\n            out.append('eq')\n            out.append(i)\n            out.append(i * 2)\n            out.append(i * 3)\n        else:\n            continue\n    return out\nprint(f(1), f(9))\n")
+T("fixes.early_return",
+  "def f(a):\n    if a:\n        x = 'a'\n    else:\n        x = 'b'\n    return x\nprint(f(0), f(1))\n",
+  "def f(a, b):\n    if a:\n        x = 1\n    elif b:\n        x = 2\n    else:\n        x = 3\n    return x\nprint(f(0, 0), f(0, 1), f(1, 0), f(1, 1))\n",
+  "def f(a, b):\n    x = 0\n    if a:\n        x = x + 1\n        if b:\n            x = x + 10\n        else:\n            x = x + 20\n    else:\n        x = -1\n    return x\nprint(f(0, 0), f(0, 1), f(1, 0), f(1, 1))\n")
+T("fixes.early_continue",
+  "out = []\nfor i in range(5):\n    if i % 2:\n        out.append(i)\n        out.append(i * 2)\n        out.append(i * 3)\n        out.append(i * 4)\n        out.append(i * 5)\n        out.append(i * 6)\nprint(out)\n",
+  "out = []\nfor a, b in [({1}, {2}), ({1}, {1, 2}), ({1, 2}, {1})]:\n    if a < b:\n        out.append('lt')\n        out.append(len(a))\n        out.append(len(b))\n        out.append(sorted(a))\n        out.append(sorted(b))\n        out.append('end')\nprint(out)\n",
+  "out = []\nfor i in range(4):\n    if i == 0:\n        out.append('zero')\n    else:\n        out.append('a')\n        out.append('b')\n        out.append(i)\nelse:\n    out.append('loop-else')\nprint(out)\n")
+T("fixes.delete_unreachable_code",
+  "def f(a):\n    if a:\n        return 1\n    else:\n        return 2\n    return 3\nprint(f(0), f(1))\n",
+  "def f(a):\n    while True:\n        if a:\n            break\n        return 'ret'\n    return 'after'\nprint(f(0), f(1))\n",
+  "def f():\n    try:\n        raise KeyError(1)\n        print('never')\n    except KeyError:\n        return 'caught'\n    return 'end'\nprint(f())\n")
+T("fixes.remove_dead_ifs",
+  "print('a' if 1 else 'b', 'c' if '' else 'd')\n",
+  "g = (x for x in [1, 2] if False)\nprint(next(g, 'default'))\n",
+  "def noisy():\n    print('noisy')\n    return [1, 2]\nprint([x for x in noisy() if 0])\nprint({x for x in noisy() if True})\n",
+  "print([x for x in range(3) if 1 if x], {x: 1 for x in range(2) if ()})\n")
+
+# ---------------------------------------------------------------------------------------------------------------
+# deletion / definitions / imports
+
+T("fixes.delete_pointless_statements",
+  "x = [1, 2]\nx\nx[0]\n3 + 4\n'doc'\nprint(x)\n",
+  "def f(a):\n    'docstring'\n    a\n    a == 1\n    'not a docstring'\n    return a\nprint(f(2), f.__doc__)\n",
+  "class A:\n    'cls doc'\n    1\n    x = 2\n    x\nprint(A.x, A.__doc__)\n")
+T("fixes.delete_unused_functions_and_classes",
+  # decorator with a side effect: deleting the function deletes the registration
+  "reg = []\ndef register(fn):\n    reg.append(fn.__name__)\n    return fn\n@register\ndef unused():\n    return 1\nprint(reg)\n",
+  # duck-typed protocol method that is never named in the text
+  "out = []\nclass W:\n    def write(self, s):\n        out.append(s)\n    def flush(self):\n        out.append('flush')\nprint('x', file=W())\nprint(out)\n",
+  # class body with a side effect
+  "class Unused:\n    print('class body runs')\ndef used():\n    return 1\nprint(used())\n",
+  "def a():\n    return 1\ndef b():\n    return b\nclass C:\n    def m(self):\n        return 2\n    def unused(self):\n        return 3\nprint(a(), C().m())\n",
+  # reached only through globals()
+  "def helper():\n    return 'h'\nprint(globals()['helper']())\n")
+T("fixes.undefine_unused_variables",
+  "def f(a):\n    x = a + 1\n    y = a.pop()\n    return a\nprint(f([1, 2]))\n",
+  "def f():\n    x = 1\n    x = 2\n    return x\nprint(f())\n",
+  "def f(p):\n    a, b = p\n    c = d = p[0]\n    return b\nprint(f((1, 2)))\n",
+  # the unused name is read through locals()/eval
+  "def f():\n    secret = 41\n    return eval('secret + 1')\nprint(f())\n",
+  "x = 1\nfor i in range(3):\n    x = i\nprint('end')\n",
+  # a later del needs the binding
+  "def f():\n    x = 1\n    del x\n    return 'ok'\nprint(f())\n")
+T("fixes.move_imports_to_toplevel",
+  "def f():\n    import math\n    return math.floor(2.5)\nprint(f())\n",
+  # optional (platform specific) stdlib module guarded by try/except
+  "try:\n    import winreg\nexcept ImportError:\n    winreg = None\nprint(winreg)\n",
+  "import sys\nif sys.platform == 'win32':\n    import msvcrt\n    print('win')\nelse:\n    print('other')\n",
+  # the function-local import shadows a global of the same name only inside the function
+  "json = 'data'\ndef f():\n    import json\n    return json.dumps([1])\nprint(f(), json)\n",
+  "def f():\n    from os import path as p\n    return p.basename('/a/b')\ndef g():\n    import os.path\n    return os.path.basename('/c/d')\nprint(f(), g())\n")
+T("fixes.remove_duplicate_functions",
+  "def f(x):\n    return x + 1\ndef g(x):\n    return x + 1\nprint(f(1), g(2), g.__name__)\n",
+  # default values are evaluated at definition time
+  "n = 1\ndef f(x=n):\n    return x\nn = 2\ndef g(x=n):\n    return x\nprint(f(), g())\n",
+  # separate mutable state in the default
+  "def f(a, acc=[]):\n    acc.append(a)\n    return list(acc)\ndef g(a, acc=[]):\n    acc.append(a)\n    return list(acc)\nprint(f(1), g(2), f(3))\n",
+  "def f(x):\n    return x * 2\ndef g(y):\n    return y * 2\nprint(f(1), g(y=2))\n",
+  # the duplicate is defined between two uses of the first definition under another binding
+  "def f():\n    return 'first'\nh = f\ndef f():\n    return 'second'\ndef k():\n    return 'second'\nprint(h(), f(), k())\n")
+T("fixes.remove_unused_imports",
+  "import os, sys\nimport math as m\nfrom collections import OrderedDict, deque\nprint(deque([1]), sys.maxsize > 0)\n",
+  # import with a side effect on later behaviour: submodule import binds the attribute on the package
+  "import os\nimport xml.dom\nimport xml.dom.minidom\nimport xml\nprint(hasattr(xml, 'dom'))\n",
+  "import json\nprint(eval('json.dumps(1)'))\n",
+  "import collections.abc\nimport collections\nprint(collections.abc.Sized.__name__)\n")
+T("fixes.add_missing_imports",
+  "print(math.floor(2.5), os.sep == '/')\n" if False else "import sys\ntry:\n    math.floor(1.5)\nexcept NameError as e:\n    print('NameError')\n",
+  "def f():\n    return os.path.basename('/a/b')\ntry:\n    print(f())\nexcept NameError:\n    print('no os')\n")
+T("fixes.fix_duplicate_imports",
+  "import os\nimport os\nimport sys, os\nfrom os import path\nfrom os import sep, path\nprint(os.sep, sys.maxsize > 0, path.basename('/a/b'), sep)\n",
+  # two imports bound to the same name: the last one wins
+  "import json as m\nimport csv as m\nprint(m.__name__)\n",
+  "import os.path as path\nimport collections.abc as abc\nprint(path.basename('a/b'), abc.Sized.__name__)\n",
+  "from os import path as p\nfrom os import path as q, sep\nfrom os import sep as p\nprint(p, q.basename('a/b'), sep)\n")
+T("fixes.sort_imports",
+  "import sys\nimport os\nfrom os import path\nprint(os.sep, sys.maxsize > 0, path.basename('/a/b'))\n",
+  # same name bound by two imports of one block: order matters
+  "import json as m\nimport csv as m\nprint(m.__name__)\n",
+  "from string import digits as d, ascii_lowercase as d\nprint(d)\n",
+  "import sys\nsys.path.insert(0, '.')\nimport os\nimport collections\nprint(collections.OrderedDict.__name__, os.sep)\n")
+T("fixes.fix_import_spacing",
+  "import os\n\n\n\nimport sys\nx = 1\nprint(os.sep, sys.maxsize > 0, x)\n",
+  "import os\ndef f():\n    return os.sep\nprint(f())\n")
+T("fixes.fix_too_many_blank_lines",
+  "x = 1\n\n\n\n\n\ny = 2\n\n\n\ndef f():\n\n\n\n    return x + y\n\n\n\nprint(f())\n\n\n\n",
+  # blank lines inside a string literal belong to the value
+  "s = '''a\n\n\n\n\nb'''\nprint(repr(s))\n",
+  "def f():\n    s = '''x\n\n\n    y'''\n    return s\nprint(repr(f()))\n")
+T("fixes.fix_line_lengths",
+  "def f(a, b, c, d, e):\n    return a + b + c + d + e\nprint(f(1111111111111, 2222222222222, 3333333333333, 4444444444444, 5555555555555), f(1111111111111, 2222222222222, 3333333333333, 4444444444444, 5))\n",
+  "x = {'aaaaaaaaaaaaaaaaaaaa': 1, 'bbbbbbbbbbbbbbbbbbbbbbbb': 2, 'cccccccccccccccccccccccc': 3, 'dddddddddddddddddddddddd': 4, 'eeeeeeeeeeee': 5}\nif x['aaaaaaaaaaaaaaaaaaaa'] == 1 and x['bbbbbbbbbbbbbbbbbbbbbbbb'] == 2 and x['cccccccccccccccccccccccc'] == 3 and x['eeeeeeeeeeee']:\n    print('yes')\nelif x['aaaaaaaaaaaaaaaaaaaa'] == 2 and x['bbbbbbbbbbbbbbbbbbbbbbbb'] == 2 and x['cccccccccccccccccccccccc'] == 3 and x['eeeeeeeeeeee']:\n    print('no')\nprint(sorted(x))\n",
+  "s = 'a long string literal with    several   spaces inside, that must not be changed by the line length rule' + ' and another one that is concatenated to it'\nprint(s)\n")
+T("fixes.align_variable_names_with_convention",
+  "def MyFunc(SomeArg):\n    LocalVar = SomeArg + 1\n    return LocalVar\nclass my_class:\n    def Method(self):\n        return 1\nsomeConstant = 3\nprint(MyFunc(1), my_class().Method(), someConstant)\n",
+  # renamed global is read through globals() / a keyword argument keeps its name
+  "def f(SomeArg=1):\n    return SomeArg\nprint(f(SomeArg=2))\n",
+  "myVar = 1\nprint(globals()['myVar'])\n",
+  # two names that are normalised to the same new name
+  "myVar = 1\nmy_var = 2\nprint(myVar, my_var)\n",
+  "class A:\n    someAttr = 1\n    def getIt(self):\n        return self.someAttr\nprint(A().getIt(), A.someAttr)\n")
+T("fixes.delete_commented_code",
+  "x = 1\n# x = 2\n# print(x)\nprint(x)  # y = 3\n",
+  "s = '''\n# x = 1\n# print(x)\n'''\nprint(s)\n",
+  "def f():\n    # import os\n    # os.remove('x')\n    return 1\nprint(f())\n")
+T("fixes.invalid_escape_sequence",
+  "import warnings\nwarnings.simplefilter('ignore')\nprint('\\d+', \"a\\.b\", '\\d\\n' if False else 'x')\n",
+  "import warnings\nwarnings.simplefilter('ignore')\ns = '\\w\\''\nprint(s, len(s))\n",
+  "import warnings\nwarnings.simplefilter('ignore')\ns = b'\\d'\nt = '\\d' '\\n'\nprint(s, repr(t))\n")
+T("fixes.fix_raise_missing_from",
+  "def f():\n    try:\n        int('x')\n    except ValueError:\n        raise KeyError('k')\ntry:\n    f()\nexcept KeyError as e:\n    print(repr(e))\n",
+  # the introduced name `error` is unbound again at the end of the handler
+  "error = 5\ntry:\n    try:\n        int('x')\n    except ValueError:\n        raise KeyError(error)\nexcept KeyError as e:\n    print(e)\nprint(error)\n",
+  "def f(error):\n    try:\n        int('x')\n    except ValueError:\n        raise KeyError(error)\ntry:\n    f('my message')\nexcept KeyError as e:\n    print(e)\n",
+  "def f():\n    try:\n        int('x')\n    except (ValueError, TypeError):\n        raise\n    except Exception:\n        raise RuntimeError('r') from None\ntry:\n    f()\nexcept ValueError as e:\n    print(type(e).__name__)\n")
+T("fixes.missing_context_manager",
+  "open('t1.txt', 'w').write('hello')\nf = open('t1.txt')\ndata = f.read()\nf.close()\nprint(data, f.closed)\n",
+  # another name for the file object is used after the last mention of the first one
+  "open('t2.txt', 'w').write('hello')\nf = open('t2.txt')\ng = f\nprint(g.read())\ng.close()\n",
+  # `with T() as d` binds the result of __enter__, not the object
+  "import tempfile\nimport os\nd = tempfile.TemporaryDirectory()\nprint(os.path.isdir(d.name))\nd.cleanup()\n",
+  "def f():\n    h = open('t3.txt', 'w')\n    h.write('abc')\n    h.close()\n    h = open('t3.txt')\n    s = h.read()\n    h.close()\n    return s\nprint(f())\n",
+  "import sqlite3\ncon = sqlite3.connect(':memory:')\ncon.execute('create table t (a)')\ncon.execute('insert into t values (1)')\nrows = con.execute('select a from t').fetchall()\ncon.close()\nprint(rows)\n")
+T("fixes.deinterpolate_logging_args",
+  "import logging, sys\nlogging.basicConfig(stream=sys.stdout, format='%(message)s', level=logging.INFO)\na = 3\nlogging.info(f'a={a}')\nlogging.warning('b={}'.format(a))\nprint('end')\n",
+  "import logging, sys\nlogging.basicConfig(stream=sys.stdout, format='%(message)s', level=logging.INFO)\nlogger = logging.getLogger('x')\nlogger.error(f'{1 + 1:>4} and 100%')\nlogger.log(logging.INFO, f'v={sys.maxsize > 0}')\nprint('end')\n",
+  "import logging, sys\nlogging.basicConfig(stream=sys.stdout, format='%(message)s', level=logging.INFO)\nlog = logging.getLogger('y')\nlog.info('{x} {y}'.format(x=1, y=2))\nprint('end')\n")
+T("fixes.simplify_assign_immediate_return",
+  "def f(a):\n    x = a + 1\n    return x\nprint(f(1))\n",
+  "x = 0\ndef f():\n    global x\n    x = 5\n    return x\nprint(f(), x)\n",
+  "def f():\n    x = 1\n    def g():\n        nonlocal x\n        x = 7\n        return x\n    return g(), x\nprint(f())\n",
+  "def f(a):\n    if a:\n        r = [a]\n        return r\n    q: int = 3\n    return q\nprint(f(0), f(2))\n")
